@@ -56,6 +56,16 @@ def gen_case(seed: int, prop: str, tier: str) -> dict:
             exts.append({"cfg": c, "unit": c["grain"] if k != "flat" else max(1, c["nsectors"]), "kind": k,
                          "type": rng.choice(TYPE_OF[k]), "name": (namefmt % (j + 1)) if "%" in namefmt else namefmt,
                          "access": rng.choice(["RW", "RW", "RDONLY"])})
+        # several flat extents may live in one backing file, each at its own start offset
+        flats = [x for x in exts if x["kind"] == "flat"]
+        if mode == "descriptor" and len(flats) >= 2 and rng.random() < 0.5:
+            shared = flats[0]["name"]
+            off = flats[0]["cfg"].get("file_offset", 0)
+            for x in flats:
+                x["name"] = shared
+                x["cfg"]["file_offset"] = off
+                x["shared"] = True
+                off += x["cfg"]["nsectors"] + rng.choice([0, 0, 8, 100])
         case["create_type"] = rng.choice(["twoGbMaxExtentSparse", "twoGbMaxExtentFlat", "vmfs", "custom"])
         case["named"] = rng.random() < 0.5  # open through a named handle instead of a Path
     wid = 1
@@ -142,7 +152,20 @@ def build(case, world: World):
             img = WV.render(cfg, lay, view, name=name)
             f = img.files[name]
             fo = cfg.get("file_offset", 0)
-            if fo:
+            if x.get("shared"):
+                from hvsim.writers.common import put_poison, put_view
+
+                g = world.fs.files.get(d + "/" + name)
+                if g is None:
+                    g = SimFile(name)
+                    put_poison(g, 0, fo * 512, 0x0FF5)
+                end = g.length
+                if fo * 512 > end:
+                    put_poison(g, end, fo * 512 - end, 0x0FF6)
+                put_view(g, fo * 512, view, 0, lay.n)
+                g.set_length(max(g.length, (fo + lay.n) * 512))
+                f = g
+            elif fo:
                 g = SimFile(name)  # the extent's data starts fo sectors into its file
                 from hvsim.writers.common import put_poison, put_view
 
@@ -292,6 +315,8 @@ def run_case(case: dict) -> RunResult:
         res.probes["extents.fault_missing_extent"] = 1
     if any(x["cfg"].get("file_offset") for x in case["exts"]):
         res.probes["extents.flat_with_file_offset"] = 1
+    if any(x.get("shared") for x in case["exts"]):
+        res.probes["extents.flat_extents_sharing_one_file"] = 1
     if any(x["cfg"]["nsectors"] % 16 for x in case["exts"]):
         res.probes["extents.extent_not_multiple_of_16_sectors"] = 1
     res.faults.update(world.faults_fired)
